@@ -261,7 +261,17 @@ class Signal( NamedObject, Connectable ):
     if isinstance( idx, int ):
       start, stop = idx, idx + 1
     elif isinstance( idx, slice ):
-      start, stop = idx.start, idx.stop
+      if idx.step is not None:
+        raise InvalidConnectionError( f"Slice {idx} of signal {s!r} cannot have a step." )
+      # Omitted bounds mean the ends of the (already sliced) signal, as
+      # they do for Bits values
+      start = 0 if idx.start is None else idx.start
+      if idx.stop is not None:
+        stop = idx.stop
+      elif s._dsl.slice is None:
+        stop = s._dsl.Type.nbits
+      else:
+        stop = s._dsl.slice.stop - s._dsl.slice.start
     else: assert False, f"The slice {idx} is invalid"
 
     if s._dsl.slice is None:
